@@ -98,6 +98,13 @@ func (f *Fix) Project(e *sim.Env) M {
 	sort.Slice(lends, func(i, j int) bool { return lends[i]["id"].(int64) < lends[j]["id"].(int64) })
 	borrows := []M{}
 	xb := []M{}
+	// handed over to a liquidation auction = the liquidation module holds a locked vault for the borrow position
+	handed := map[uint64]bool{}
+	for _, lv := range e.App.NewliqKeeper.GetLockedVaults(ctx) {
+		if lv.InitiatorType == "lend" {
+			handed[lv.OriginalVaultId] = true
+		}
+	}
 	for _, b := range k.GetAllBorrow(ctx) {
 		iT := int64(0)
 		iF := int64(0)
@@ -108,7 +115,7 @@ func (f *Fix) Project(e *sim.Env) M {
 			}
 		}
 		borrows = append(borrows, M{"id": int64(b.ID), "lend": int64(b.LendingID), "pair": int64(b.PairID), "cin": i64(b.AmountIn.Amount),
-			"ca": f.assetOfDenom(b.AmountIn.Denom), "out": i64(b.AmountOut.Amount), "oa": f.assetOfDenom(b.AmountOut.Denom), "iT": iT, "liq": b.IsLiquidated, "st": b.IsStableBorrow,
+			"ca": f.assetOfDenom(b.AmountIn.Denom), "out": i64(b.AmountOut.Amount), "oa": f.assetOfDenom(b.AmountOut.Denom), "iT": iT, "liq": b.IsLiquidated, "ho": handed[b.ID], "st": b.IsStableBorrow,
 			"bra": f.assetOfDenom(b.BridgedAssetAmount.Denom), "bram": i64(b.BridgedAssetAmount.Amount)})
 		tr, _ := k.GetBorrowInterestTracker(ctx, b.ID)
 		rT := int64(0)
